@@ -173,7 +173,19 @@ def run(ctx):
     dpf = prog.fn('RecomputeOutputsDirtyCache::depfile')
     full_range(ctx, 'C01.O1', all_, 'Edge::outputs_', 'every output is checked')
     full_range(ctx, 'C01.O1', dpf, 'Edge::outputs_', 'every output is re-checked')
-    ctx.floor('C01.O1', 12)
+    # ... and no verdict is returned before the loop has been entered (phony edges with several outputs,
+    # edges with implicit outputs: each output is examined, not only the first)
+    for fn_ in (all_, dpf):
+        heads = {l['header'] for l in loops_over(fn_, 'Edge::outputs_')}
+        r = fn_.find_path(None, lambda x: x['k'] == 'ret', from_succ=fn_.entry, is_blocker=lambda x: x.get('_b') in heads, sensitive=False)
+        ctx.check('C01.O1', bool(heads) and r is None, fn_.name, 'outputs-check:verdict-before-loop', fn_.loc,
+                  'every return of %s lies behind the loop over all outputs' % fn_.name,
+                  witness=None if r is None else {'blocks': r[0]})
+        for l in loops_over(fn_, 'Edge::outputs_'):
+            every_iteration_passes(ctx, 'C01.O1', fn_, l, lambda x: x['k'] == 'call' and x.get('name') in (
+                'RecomputeOutputsDirtyCache::Phony', 'RecomputeOutputsDirtyCache::RecomputeOutputDirty<true>',
+                'RecomputeOutputsDirtyCache::RecomputeOutputDirty<false>'), 'each output is examined', 'outputs-check:output-skipped')
+    ctx.floor('C01.O1', 16)
 
     # ---- T1: deps knowledge before a revocable verdict -------------------------------------------
     R('C01.T1', 'T', 'discovered deps may be left unloaded (LoadDepsTry) only when the outputs '
